@@ -61,6 +61,21 @@ func main() {
 				table[prov.FuncString(fn)] = n
 			}
 		}
+		// the named types of the module (a struct type that is not listed was
+		// introduced after the rule tables were written)
+		var tnames []string
+		for _, pkg := range p.SSAPkgs {
+			if !p.InModulePkg(pkg) {
+				continue
+			}
+			for _, m := range pkg.Members {
+				if t, ok := m.(*ssa.Type); ok {
+					tnames = append(tnames, prov.TypeString(t.Type()))
+				}
+			}
+		}
+		sort.Strings(tnames)
+		table["#types"] = prov.FnNames{Sig: tnames}
 		b, _ := json.MarshalIndent(table, "", " ")
 		if err := os.WriteFile(*genNames, append(b, '\n'), 0o644); err != nil {
 			fmt.Fprintln(os.Stderr, "INFRA:", err)
